@@ -372,7 +372,7 @@ def main(run, replay=None):
     # (momentum, MaxUpdates, with load_state_dict into the live layer)
     configs = [(Fraction(1, 2), 4, False), (Fraction(1, 10), 3, False), (Fraction(1, 4), 1, True)]
     if thorough:
-        configs = [(Fraction(1, 2), 6, False), (Fraction(1, 10), 4, False), (Fraction(1, 4), 5, False), (Fraction(1, 2), 2, True)]
+        configs = [(Fraction(1, 2), 5, False), (Fraction(1, 10), 4, False), (Fraction(1, 4), 4, False), (Fraction(1, 2), 2, True)]
     for mom, maxu, with_load in configs:
         name = "MC_BN_%d_%d" % (mom.numerator, mom.denominator)
         res = T.run_tlc(name, bn_cfg(maxu, with_load=with_load), wrapper=bn_wrapper(name, mom), dot=True, name=name)
